@@ -135,9 +135,12 @@ def advance (v : UpdVariant) (e0 : Env) (c : CState) (r : Request) (ph : Phase) 
           let (s', resp) := step v e c.s r
           ({ c with s := s' }, .done resp)
         | none =>
-          -- operate on the unregistered object: answer as if, registry untouched
-          let (_, resp) := step v e [obj] r
-          (c, .done resp))
+          -- operate on the unregistered object (as the requests that still hold it have left
+          -- it): the registry is untouched, the object keeps the change
+          let d0 := (c.dead.lookup (n, ep)).getD { obj with enabled := false }
+          let (s1, resp) := step v e [d0] r
+          let d1 := (s1.find n).getD d0
+          ({ c with dead := ((n, ep), d1) :: c.dead.filter (·.1 != (n, ep)) }, .done resp))
      | .single => (c, .done (errResp .internal)))
   | .ready obj ep inp =>
     (match kindOf r with
